@@ -42,6 +42,14 @@ def gen_byte_cases(rng, n):
     for k in range(4):
         cases.append('X %d near' % k)
         cases.append('X %d far' % k)
+    # bb thunks (_MIR_get_bb_thunk / _MIR_replace_bb_thunk): displacement boundaries on both sides and random ones
+    edge = [2 ** 31 - 1, 2 ** 31, -2 ** 31, -2 ** 31 - 1, 0, -15, -5, 1, -1, 2 ** 32, -2 ** 40]
+    for d1 in edge:
+        cases.append('B %x %d %d' % (rng.getrandbits(rng.choice([16, 47, 64])), d1, rng.choice(edge)))
+    for _ in range(n // 3):
+        pick = lambda: rng.choice([rng.randint(-2 ** 31, 2 ** 31 - 1), rng.choice([1, -1]) * (2 ** 31 + rng.randint(-40, 40)),
+                                   rng.choice([1, -1]) * rng.randint(2 ** 31, 2 ** 46)])
+        cases.append('B %x %d %d' % (rng.getrandbits(rng.choice([16, 47, 64])), pick(), pick()))
     return cases
 
 
@@ -61,7 +69,11 @@ def check_bytes(chk, impl, model, cases):
     mlines, idx = [], []
     for i, (c, o) in enumerate(zip(cases, out)):
         d = kv(o)
-        if 'thunk' in d and 'to' in d:
+        if c.startswith('B'):
+            if all(k in d for k in ('thunk', 'bbv', 'handler', 'to')):
+                mlines.append('B %s %s %s %s' % (d['thunk'], d['bbv'], d['handler'], d['to']))
+                idx.append(i)
+        elif 'thunk' in d and 'to' in d:
             mlines.append('R %s %s' % (d['thunk'], d['to']))
             idx.append(i)
     rc2, mout, merr = vlib.run_lines(model, mlines)
@@ -78,6 +90,20 @@ def check_bytes(chk, impl, model, cases):
             bad.append((c, o, '(no model answer)'))
             continue
         m = kv('M ' + mo[i])
+        if c.startswith('B'):
+            # bytes must agree with the model always (it has the C code's truncation); within +-2 GiB the thunk must
+            # really hand over the bb version and reach the handler / the new target
+            near1 = -2 ** 31 <= int(c.split()[2]) <= 2 ** 31 - 1
+            near2 = -2 ** 31 <= int(c.split()[3]) <= 2 ** 31 - 1
+            chk.dist('bytes', 'B:%s/%s' % ('near' if near1 else 'far', 'near' if near2 else 'far'))
+            ok = d.get('bytes') == m.get('bytes') and d.get('bytes2') == m.get('bytes2')
+            if near1:
+                ok = ok and m.get('r10') == d.get('bbv') and m.get('tgt') == d.get('handler')
+            if near2:
+                ok = ok and m.get('tgt2') == d.get('to')
+            if not ok:
+                bad.append((c, o, mo[i]))
+            continue
         form = 'short' if d.get('bytes', '').startswith('e9') else 'long'
         chk.dist('bytes', c.split()[0] + ':' + form)
         ok = d.get('bytes') == m.get('bytes') and d.get('get') == m.get('get') == d.get('to') and m.get('tgt') == d.get('to')
